@@ -215,4 +215,4 @@ PROPS = {
 NOT_APPLICABLE = {}
 
 # properties configured above but not yet registered in MANIFEST.json (work in progress)
-HOLD = set(PROPS) - {"C19", "C12", "C13", "C11", "C03", "C17", "C05", "C04", "C10", "C01", "C09"}
+HOLD = {"C06", "C14"}
